@@ -11,7 +11,7 @@
    correspondence, the model's own composition (Transform.roundtrip) against it. *)
 From Verif Require Import Base.Str Base.Outcome Model.Ast Model.Token Model.Parser Model.Listener Model.Printer
   Model.Transform Spec.Sem Spec.Expressible Spec.Normalize Proofs.ListenerSem Proofs.ListenerFile Proofs.ParserShape Proofs.RoundTrip Proofs.Lossless Proofs.ParserTokens Proofs.AcceptedText
-  Proofs.ParserComplete Proofs.LexInversion Proofs.LexRender Proofs.RoundTripChars.
+  Proofs.ParserComplete Proofs.LexInversion Proofs.LexRender Proofs.RoundTripChars Proofs.DeclRoundTrip.
 
 (* 1. what the parser can produce for a relation is always printable: carriable, at most one direct assignment,
       and that one in a position from which it can be written first *)
@@ -99,3 +99,20 @@ Theorem C01_relation_definition_round_trip : forall d refs,
       sem_rdef {| rd_first := first; rd_op := op; rd_rest := rest |} = sem_rdef d /\
       restrictions_elem first = (if (count_direct (sem_rdef d) =? 0)%nat then None else Some refs).
 Proof. exact parsed_relation_round_trip. Qed.
+
+(* ... and of the whole relation LINE "    define <name>: <definition>" between the line feeds of the document: the
+   parser model's relation-declaration rule (optional comment, NEWLINE, DEFINE, name, COLON, definition) returns a
+   declaration with the same name, rewrite and restrictions *)
+Theorem C01_relation_line_round_trip : forall ty rel d meta,
+  let refs := rm_types_of meta in
+  wf_rdef d = true -> refs <> [] -> Forall plain_ref refs -> plain_u (sem_rdef d) -> plain_name rel = true ->
+  exists t,
+    print_relation ty rel (sem_rdef d) meta false = Ok t /\
+    snd (Model.Lexer.lex ([10] ++ t ++ [10])) = [] /\
+    exists r k,
+      p_reldecl (fst (Model.Lexer.lex ([10] ++ t ++ [10]))) = Some (r, k) /\
+      map tk k = [NEWLINE] /\
+      ttext (rl_name r) = rel /\
+      sem_rdef (rl_def r) = sem_rdef d /\
+      restrictions_elem (rd_first (rl_def r)) = (if (count_direct (sem_rdef d) =? 0)%nat then None else Some refs).
+Proof. exact parsed_declaration_round_trip. Qed.
